@@ -479,6 +479,12 @@ func (m Mesh) ScanPrimitivesParallelWithPoolSize(size int, f func(i int, p Primi
 	var wg sync.WaitGroup
 
 	totalWork := m.PrimitiveCount()
+	if totalWork < 1 {
+		// Nothing to visit. A line strip without indices reports -1
+		// primitives, which the partition below would turn into negative
+		// ranges for the last worker.
+		return m
+	}
 	workSize := int(math.Floor(float64(totalWork) / float64(size)))
 	for i := 0; i < size; i++ {
 		wg.Add(1)
